@@ -952,6 +952,27 @@ func c07AliasQuirk(cs c07Case, base val.Item, got string, after val.Item) bool {
 func (p *c07) viaClient(x *res, cs c07Case, expr string, names map[string]string, want refmodel.UResult, feature string, ctx *runner.Ctx) {
 	for _, adapter := range adapt.Adapters {
 		spec := mon.SpecHashOnly("tbl07")
+		// half of the replays run on a table with global indexes over attributes of the item that are (non-empty)
+		// strings before and after the update, or that the update removes or creates: an update that gives an item an
+		// index key, changes it or REMOVES it is an update like any other
+		if len(expr)%2 == 0 {
+			cand := []string{}
+			for _, src := range []val.Item{cs.Item, want.Item} {
+				for a := range src {
+					cand = append(cand, a)
+				}
+			}
+			sort.Strings(cand)
+			for _, a := range uniq(cand) {
+				okS := func(it val.Item) bool { v, has := it[a]; return !has || (v.K == val.KS && v.Str != "") }
+				if a != "h" && okS(cs.Item) && okS(want.Item) && len(spec.Indexes) < 2 {
+					spec.Indexes = append(spec.Indexes, adapt.IndexSpec{Name: fmt.Sprintf("ix%d", len(spec.Indexes)), Hash: a})
+				}
+			}
+			if len(spec.Indexes) > 0 {
+				x.r.Counters["client_replays_on_indexed_tables"]++
+			}
+		}
 		cl, _, ds := freshClient(adapter, spec)
 		if ds != nil {
 			return
